@@ -1,4 +1,7 @@
+#[cfg(not(feature = "verif"))]
 use std::net;
+#[cfg(feature = "verif")]
+use crate::verif::net;
 
 use crate::half_connection::HalfConnection;
 use crate::SendMode;
@@ -127,6 +130,17 @@ impl RemoteClient {
         match self.state {
             State::Active(ref state) => state.half_connection.send_buffer_size(),
             _ => 0,
+        }
+    }
+}
+
+#[cfg(feature = "verif")]
+impl RemoteClient {
+    #[doc(hidden)]
+    pub fn verif_probe(&self) -> Option<crate::verif::Probe> {
+        match self.state {
+            State::Active(ref state) => Some(state.half_connection.verif_probe()),
+            _ => None,
         }
     }
 }
